@@ -32,7 +32,7 @@ use graph::number_of_hops;
 
 use crate::{
     identifier::isd_asn::IsdAsn,
-    path::{ScionPath, fingerprint::data_plane::DpPathFingerprint},
+    path::{ScionPath, metadata::path_interface::PathInterface},
     segment::{Entry, PathSegment},
 };
 
@@ -118,11 +118,19 @@ fn has_loops(path: &ScionPath) -> bool {
 fn filter_duplicates(paths: Vec<ScionPath>) -> Vec<ScionPath> {
     // Store the index of the path with the latest expiry for every unique path fingerprint.
     let mut path_result = Vec::new();
-    let mut unique_paths: HashMap<DpPathFingerprint, (u32, usize)> = HashMap::new();
+    let mut unique_paths: HashMap<Vec<PathInterface>, (u32, usize)> = HashMap::new();
     for path in paths.into_iter() {
-        let fingerprint = path.fingerprint();
+        // The identity of a path is the sequence of interfaces it traverses. The data plane
+        // fingerprint is not suitable here: it covers the raw hop fields, which differ between
+        // segments beaconed in opposite directions or with different unused interfaces.
+        let interfaces: Vec<PathInterface> = path
+            .metadata
+            .as_ref()
+            .and_then(|metadata| metadata.interfaces.as_ref())
+            .map(|interfaces| interfaces.iter().map(|i| i.interface).collect())
+            .unwrap_or_default();
 
-        match unique_paths.entry(fingerprint) {
+        match unique_paths.entry(interfaces) {
             // If we already have a path with the same fingerprint, compare the expiration and keep
             // the one with the later expiration.
             std::collections::hash_map::Entry::Occupied(mut entry) => {
